@@ -177,11 +177,7 @@ func checkStreamC01(o *Outcome, entry string, stream []byte, kind endKind, seg s
 		return
 	}
 	if !eventsEqual(obs.events, want) {
-		clause := "events"
-		if isBOMCase(stream) {
-			clause = "events-bom"
-		}
-		o.violate("C01", clause, "%s: got %s, want %s", ctx(), describeEvents(obs.events), describeEvents(want))
+		o.violate("C01", "events", "%s: got %s, want %s", ctx(), describeEvents(obs.events), describeEvents(want))
 		return
 	}
 	gotUEOF := errors.Is(obs.err, sse.ErrUnexpectedEOF)
